@@ -33,7 +33,7 @@ class C16:
         self.file = ctx.index.module(DIMS).relpath
 
     # ------------------------------------------------------------------ R16.1
-    def check_range_dim(self):
+    def check_range_dim(self, wrappers=("create_time_range", "create_frequency_range"), size_mode=True):
         ctx = self.ctx
         s = ctx.summ.of_func(DIMS, "create_range_dim")
         site = f"{self.file}:{s.node.lineno} create_range_dim"
@@ -48,8 +48,8 @@ class C16:
         pos = list(a[2])
         a_start, a_stop, a_step = kw.get("start", pos[0] if pos else None), kw.get("stop", pos[1] if len(pos) > 1 else None), kw.get("step", pos[2] if len(pos) > 2 else None)
         for case, env, want_step in (("step given", {("cmp", "is", step, NONE): False, ("cmp", "isnot", step, NONE): True}, step),
-                                     ("size given", {("cmp", "is", step, NONE): True, ("cmp", "isnot", step, NONE): False,
-                                                     ("cmp", "is", size, NONE): False, ("cmp", "isnot", size, NONE): True}, step_eff_none)):
+                                     ) + (() if not size_mode else (("size given", {("cmp", "is", step, NONE): True, ("cmp", "isnot", step, NONE): False,
+                                                     ("cmp", "is", size, NONE): False, ("cmp", "isnot", size, NONE): True}, step_eff_none),)):
             got = peval(a_step, env) if a_step is not None else None
             if got is not None and canon(got) == canon(want_step):
                 ctx.ok("R16.1", f"{self.file}:{ar[0].lineno} create_range_dim", f"{case}: arange step = {show(want_step)[:40]}")
@@ -95,6 +95,12 @@ class C16:
             c = data[1] if data[2] == trimmed else NOT(data[1])
             last = ("sub", coords, ("const", -1))
             mentions = any(x == last for x in walk(c)) and any(x == stop for x in walk(c))
+            # the trim must apply in both modes (step given / size given)
+            for env_ in ({("cmp", "is", step, NONE): False, ("cmp", "isnot", step, NONE): True, ("cmp", "is", size, NONE): True, ("cmp", "isnot", size, NONE): False},
+                         {("cmp", "is", step, NONE): True, ("cmp", "isnot", step, NONE): False, ("cmp", "is", size, NONE): False, ("cmp", "isnot", size, NONE): True})[:2 if size_mode else 1]:
+                ce = peval(c, env_)
+                if ce[0] == "const":
+                    mentions = False
             trim_ok = mentions
         if trim_ok and vk.get("dims") == name:
             ctx.ok("R16.1", site, "trailing element at/after the stop value trimmed; dims=name")
@@ -104,6 +110,8 @@ class C16:
                     "value (comparison of coords[-1] with stop): otherwise the axis contains the excluded stop value", s.node.lineno)
         # wrappers
         for fname, sp, ep, defaults in (("create_time_range", "start_time", "end_time", True), ("create_frequency_range", "low_freq", "high_freq", False)):
+            if fname not in wrappers:
+                continue
             ws = ctx.summ.of_func(DIMS, fname)
             wsite = f"{self.file}:{ws.node.lineno} {fname}"
             calls = [r.term for r in ws.returns if r.term[0] == "call" and r.term[1] == ("global", f"{DIMS}:create_range_dim", "func")]
